@@ -60,13 +60,14 @@ PROPS = {
         "not_covered": ["the derive macro's byte_len (sum over fields of the active variant): des-macros-core is not covered", "Body::length is linked to the Verus unit by an assumed contract (proved on the Kani side)"],
     },
     "C05": {
-        "bundles": [],
+        "bundles": ["interval"],
+        "fns": {"interval": ["MissedTickBehavior::next_timeout"]},
         "kani": ["timers"],
         "assumptions": ["Kani/CBMC: loop-free harnesses over fully symbolic inputs (complete for the stated domain: times and periods up to 500 years); CBMC's integer model is trusted",
-                        "only MissedTickBehavior::next_timeout (Burst, Delay) is under contract"],
+                        "only MissedTickBehavior::next_timeout is under contract (Verus unit interval: Burst, Delay and Skip, panic freedom of the u64 conversion for periods up to 2^64 ns; Kani unit timers: Burst / Delay once more on the real operator code, and the operator contracts the Verus unit assumes)",
+                        "unit interval: Duration modelled by its nanosecond count (dn); SimTime shim = wrapper around a Duration; the three operator impls are assumed contracts (proved by the Kani harnesses simtime_{plus_duration,minus_duration,minus_simtime}_follows_nanoseconds for values up to 500 years)"],
         "not_covered": ["BOUNDED only (replay/timer_driver on the real crate, never counted as proved): a sleep / sleep_until / timeout / interval tick that is awaited completes exactly at its deadline - never earlier, never later, never not at all - whatever other timers of the module were created, polled once and dropped, reset or had fired; timeout returns Ok iff the inner future completes no later than the deadline; an elapsed deadline completes immediately; interval ticks follow the period and Burst / Delay / Skip after late ticks; the run ends with every task finished at the last deadline",
                         "(not proved) TimerQueue::{add,next,bump}, TimerSlot::{add,remove,wake_all}, TimerSlotEntryHandle::{drop,reset,resolve}, Sleep::poll/reset, Timeout::poll, Interval::poll_tick, ModuleRef::activate/deactivate: RefCell behind &self / Arc (no sound Verus view without rewriting them into a model); Kani: thread_local TIME_CTX makes kani-compiler panic (intrinsics.rs:243), and with the queue driven directly (driver.rs included under a host module) CBMC gave no verdict in 25 min for two timers",
-                        "MissedTickBehavior::Skip arithmetic (two 128-bit remainders: no CBMC verdict in 25 min)",
                         "timers of shut-down / restarted modules (C09), tokio's scheduling of woken tasks (C06)"],
     },
     "C19": {
